@@ -484,6 +484,12 @@ func c19Crash(r *verdict.Run, shard int, final bool) {
 		s0cmds = append(s0cmds, []string{"SELECT", "1"}, []string{"SET", "other-db", "old"}, []string{"SELECT", "0"})
 		s1cmds = append(s1cmds, []string{"SELECT", "1"}, []string{"SET", "other-db", "new"}, []string{"SELECT", "0"})
 	}
+	if shard%3 == 1 {
+		// the interrupted pass writes the very first snapshot of a database (1), while databases whose files sort
+		// before (0) and after it (10, 2) have snapshots from the previous pass and are not touched
+		s0cmds = append(s0cmds, []string{"SELECT", "2"}, []string{"SET", "later-db", "kept"}, []string{"SELECT", "10"}, []string{"RPUSH", "later-list", "a", "b"}, []string{"SELECT", "0"})
+		s1cmds = append(s1cmds, []string{"SELECT", "1"}, []string{"SET", "first-snapshot-of-this-db", "new"}, []string{"SELECT", "0"})
+	}
 	// stages of one save pass: for each dirty file: created, header, key x n, before-close
 	type stage struct {
 		point string
@@ -491,7 +497,7 @@ func c19Crash(r *verdict.Run, shard int, final bool) {
 	}
 	var stages []stage
 	files := 1
-	if shard%3 == 0 {
+	if shard%3 == 0 || shard%3 == 1 {
 		files = 2
 	}
 	for f := 1; f <= files; f++ {
